@@ -433,3 +433,121 @@ Proof.
   apply bind_panic in H as [H|(ei & s7 & E8 & H)]; [destruct evp; discriminate H|].
   apply bind_panic in H as [H|(u3 & s8 & E9 & H)]; discriminate H.
 Qed.
+
+(* ------------------------------------------------------------------ instructions with lexical operands *)
+Lemma read_opcode_code s op s0 :
+  read_opcode s = ROk op s0 ->
+  exists l, code_at s = Some l /\ s0 = with_ip s (fst (ip s), snd (ip s) + 1).
+Proof.
+  intros H. unfold read_opcode in H. apply bind_ok in H as (l & s1 & E & H).
+  apply cur_lambda_ok in E as (Hc & ->). exists l. split; [exact Hc|].
+  rewrite (bind_eq get_vm _ s s s eq_refl) in H.
+  destruct (list_get (l_bc l) (snd (ip s))) as [[]|]; try discriminate H.
+  apply bind_ok in H as (u & s2 & E & H). unfold set_ip in E. injection E as _ <-.
+  unfold ret in H. injection H as _ <-. reflexivity.
+Qed.
+(* the state after a successful operand load: only %ip moved *)
+Lemma load_operand_state s l v s1 :
+  code_at s = Some l -> load_operand s = ROk v s1 -> s1 = with_ip s (fst (ip s), snd (ip s) + 1).
+Proof.
+  intros Hc H. rewrite load_operand_eq in H. apply bind_ok in H as (o & s0 & E & H).
+  destruct (read_operand_code s l Hc) as [(o' & Ho & _)|(e & m & Ho)]; rewrite Ho in E; [|discriminate].
+  injection E as <- <-. pose proof (pure_load_tail o' (with_ip s (fst (ip s), snd (ip s) + 1))) as Hp.
+  rewrite H in Hp. exact Hp.
+Qed.
+
+Definition lex_instr (op : opcode) : bool :=
+  match op with OMov | OMovImmediate | OPush => true | _ => false end.
+
+Theorem lex_instr_env_sites ob s l op s0 k :
+  finv s -> code_at s = Some l -> lex_okb l = true -> ep_ok s (len (l_envmap l)) ->
+  read_opcode s = ROk op s0 -> lex_instr op = true ->
+  run_one ob s = RPanic k -> k = 10 \/ k = 45.
+Proof.
+  intros F Hc Hl Hep Hop Hlx H.
+  destruct (read_opcode_code s op s0 Hop) as (l' & Hc' & ->).
+  set (s0 := with_ip s (fst (ip s), snd (ip s) + 1)) in *.
+  assert (F0 : finv s0) by (apply finv_with_ip; exact F).
+  assert (C0 : code_at s0 = Some l) by exact Hc.
+  assert (E0 : ep_ok s0 (len (l_envmap l))) by (apply ep_ok_with_ip; exact Hep).
+  unfold run_one in H. rewrite (bind_eq _ _ _ _ _ Hop) in H.
+  destruct op; try discriminate Hlx.
+  - (* MOV *)
+    apply bind_panic in H as [H|(v & s1 & E & H)]; [exact (load_operand_no_env_panic s0 l F0 C0 Hl E0 k H)|].
+    apply (load_operand_state s0 l v s1 C0) in E. subst s1.
+    apply bind_panic in H as [H|(u & s2 & _ & H)]; [|discriminate H].
+    refine (store_operand_no_env_panic _ l v _ _ Hl _ k H);
+      [apply finv_with_ip; exact F0|exact C0|apply ep_ok_with_ip; exact E0].
+  - (* MOV immediate *)
+    destruct (read_operand_code s0 l C0) as [(o & Ho & _)|(e & m & Ho)].
+    2:{ unfold bindM in H. rewrite Ho in H. discriminate H. }
+    rewrite (bind_eq _ _ _ _ _ Ho) in H.
+    apply bind_panic in H as [H|(u & s2 & _ & H)]; [|discriminate H].
+    refine (store_operand_no_env_panic _ l o _ _ Hl _ k H);
+      [apply finv_with_ip; exact F0|exact C0|apply ep_ok_with_ip; exact E0].
+  - (* PUSH *)
+    apply bind_panic in H as [H|(v & s1 & E & H)]; [exact (load_operand_no_env_panic s0 l F0 C0 Hl E0 k H)|].
+    apply bind_panic in H as [H|(u & s2 & _ & H)]; discriminate H.
+Qed.
+
+(* ------------------------------------------------------------------ RET and load_arg under a frame *)
+Lemma stack_get_eq s j : j < scap s -> stack_get j s = ROk (sget s j) s.
+Proof. intros H. unfold stack_get. destruct (N.ltb_spec j (scap s)); [reflexivity|lia]. Qed.
+Lemma usub_eq a b s : b <= a -> usub a b s = ROk (a - b) s.
+Proof. intros H. unfold usub. destruct (N.ltb_spec a b); [lia|reflexivity]. Qed.
+
+(* RET in a well-formed frame (C04 [frame_at]) is total: no underflow (40); it restores the saved
+   %ep, %ip, %bp and drops the frame and its arguments *)
+Theorem ret_total s n e i b :
+  frame_at s n e i b -> bp s + 4 < scap s ->
+  ret_body s = ROk false (with_bp (with_ip (with_ep (with_sp s (bp s - n)) e) i) b).
+Proof.
+  intros (H1 & H2 & H3 & H4 & Hn) Hc. unfold ret_body.
+  rewrite (bind_eq get_vm _ s s s eq_refl).
+  rewrite (bind_eq _ _ _ _ _ (stack_get_eq s (bp s + 1) ltac:(lia))). rewrite H1. cbn [as_argc].
+  rewrite (bind_eq (ret n) _ s n s eq_refl).
+  rewrite (bind_eq _ _ _ _ _ (usub_eq (bp s) n s Hn)).
+  rewrite (bind_eq (set_sp (bp s - n)) _ s tt _ eq_refl).
+  set (s2 := with_sp s (bp s - n)).
+  assert (C2 : bp s + 2 < scap s2) by (cbn; lia).
+  rewrite (bind_eq _ _ _ _ _ (stack_get_eq s2 (bp s + 2) C2)).
+  change (sget s2 (bp s + 2)) with (sget s (bp s + 2)). rewrite H2. cbn [as_ep].
+  rewrite (bind_eq (ret e) _ s2 e s2 eq_refl).
+  rewrite (bind_eq (set_ep e) _ s2 tt _ eq_refl).
+  set (s3 := with_ep s2 e).
+  assert (C3 : bp s + 3 < scap s3) by (cbn; lia).
+  rewrite (bind_eq _ _ _ _ _ (stack_get_eq s3 (bp s + 3) C3)).
+  change (sget s3 (bp s + 3)) with (sget s (bp s + 3)). rewrite H3. cbn [as_ip].
+  rewrite (bind_eq (ret (fst i, snd i)) _ s3 _ s3 eq_refl).
+  rewrite (bind_eq (set_ip (fst i, snd i)) _ s3 tt _ eq_refl).
+  set (s4 := with_ip s3 (fst i, snd i)).
+  assert (C4 : bp s + 4 < scap s4) by (cbn; lia).
+  rewrite (bind_eq _ _ _ _ _ (stack_get_eq s4 (bp s + 4) C4)).
+  change (sget s4 (bp s + 4)) with (sget s (bp s + 4)). rewrite H4. cbn [as_bp].
+  rewrite (bind_eq (ret b) _ s4 b s4 eq_refl).
+  rewrite (bind_eq (set_bp b) _ s4 tt _ eq_refl).
+  subst s4 s3 s2. destruct i; reflexivity.
+Qed.
+
+(* ... and hands the caller an environment that was ok when CALL saved it *)
+Theorem ret_restores_ep_ok s n e i b eid l m :
+  frame_at s n e i b -> bp s + 4 < scap s -> env_at s e = Some (eid, l) -> m <= len l ->
+  exists s', ret_body s = ROk false s' /\ ep_ok s' m /\ ip s' = i /\ bp s' = b /\ sp s' = bp s - n.
+Proof.
+  intros Hf Hc He Hm. eexists. split; [apply (ret_total s n e i b Hf Hc)|].
+  split; [|split; [reflexivity|split; reflexivity]].
+  exists eid, l. split; [|exact Hm]. cbn [ep with_bp with_ip with_ep].
+  erewrite env_at_ext; [exact He|reflexivity|reflexivity].
+Qed.
+
+Theorem load_arg_total s n e i b k :
+  frame_at s n e i b -> bp s + 1 < scap s -> k < n ->
+  load_arg k s = ROk (sget s (bp s - n + k + 1)) s.
+Proof.
+  intros (H1 & _ & _ & _ & Hn) Hc Hk. unfold load_arg.
+  rewrite (bind_eq get_vm _ s s s eq_refl).
+  rewrite (bind_eq _ _ _ _ _ (stack_get_eq s (bp s + 1) Hc)). rewrite H1. cbn [as_argc].
+  rewrite (bind_eq (ret n) _ s n s eq_refl).
+  rewrite (bind_eq _ _ _ _ _ (usub_eq (bp s) n s Hn)).
+  apply stack_get_eq. lia.
+Qed.
